@@ -16,7 +16,7 @@ def tx(t):
 
 def templates_in(ctx, rel, qual):
     fn = A.get_fn(ctx.files, rel, qual)
-    return fn, T.templates_of(fn)
+    return fn, T.templates_both(fn)
 
 
 def rule_tpl_role(ctx):
